@@ -203,6 +203,11 @@ def run(c, facts, tier):
         g.walk(fb, lambda x: nodes.append(x) if x["t"] in ("rep", "reptill", "sep", "set", "until", "alt") else None, follow=False)
         for x in nodes:
             if x["t"] in ("rep", "reptill", "sep"):
+                if b._input_name(fn) is None:
+                    prm = []
+                    g.walk(x["p"], lambda y: prm.append(y) if y["t"] == "param" else None, follow=False)
+                    if prm:
+                        continue  # a parser builder repeating its parameter: examined at its (expanded) uses
                 nrep += 1
                 if g.nullable(x["p"]):
                     bad.append("%s: nullable parser under %s" % (fn.key, x["t"]))
